@@ -594,8 +594,13 @@ class Run:
         """Attribute a violation to properties using the step context."""
         props = list(base)
         tags = ctx['step'].get('tags', [])
-        if props in (['C04'], ['C03']):
-            tags = [t for t in tags if t == 'C14']
+        if props == ['C04']:
+            # a wrong answer is a view error; it also counts against the
+            # properties that explicitly include the view (C10: "at once in
+            # the virtual view"; C14; concurrent use)
+            tags = [t for t in tags if t in ('C14', 'C10', 'C09', 'C17')]
+        elif props == ['C03']:
+            tags = [t for t in tags if t in ('C14', 'C09')]
         if props == ['C05']:
             # redundant work is not a breach of the build_file contract
             tags = [t for t in tags if t != 'C10']
